@@ -70,7 +70,13 @@ func TestRegressionAudit34_34NilInlinedInterfaceNextToAnotherInlinedInterface(t 
 	require.Equal(t, src, binDst)
 
 	j, err := api.JSONEncode(context.Background(), src)
-	require.NoError(t, err)
+	if err != nil {
+		// the property speaks about values that the encoder accepts: a struct type with two owners of the "type" key may
+		// be refused as a whole (it is, since the follow-up repair) - but only with the error that says so
+		require.ErrorContains(t, err, "used more than once in the map form")
+
+		return
+	}
 	t.Logf("json: %s", j)
 
 	var dst h34Two
@@ -92,7 +98,13 @@ func TestRegressionAudit34_34NilInlinedInterfaceInStructWithTypeCode(t *testing.
 	require.Equal(t, src, binDst)
 
 	j, err := api.JSONEncode(context.Background(), src)
-	require.NoError(t, err)
+	if err != nil {
+		// the property speaks about values that the encoder accepts: a struct type with two owners of the "type" key may
+		// be refused as a whole (it is, since the follow-up repair) - but only with the error that says so
+		require.ErrorContains(t, err, "used more than once in the map form")
+
+		return
+	}
 	t.Logf("json: %s", j)
 
 	var dst h34Parent
